@@ -153,6 +153,21 @@ Proof.
   unfold std_output_ok in H3. rewrite !andb_true_iff, Z.leb_le in H3. tauto.
 Qed.
 
+(* ActivateProducer at any height: every output is individually valid *)
+Theorem activate_outputs_valid pr e outs refs :
+  accept KActivate pr e outs refs = true ->
+  Forall (fun o => 0 <= o_val o /\ o_asset o = true) outs.
+Proof.
+  unfold accept. rewrite andb_true_iff. intros [Ho _]. cbn [check_outputs] in Ho.
+  destruct (p_height pr <=? p_nft pr).
+  - apply length_zero_nil in Ho. subst. constructor.
+  - rewrite orb_true_iff in Ho. destruct Ho as [Ho|Ho].
+    + apply length_zero_nil in Ho. subst. constructor.
+    + rewrite !andb_true_iff, forallb_forall in Ho. destruct Ho as [_ H3].
+      apply Forall_forall. intros o Hin. specialize (H3 o Hin).
+      unfold std_output_ok in H3. rewrite !andb_true_iff, Z.leb_le in H3. tauto.
+Qed.
+
 (* ---------- what was wrong before the repair ---------- *)
 
 Definition legacy_pr : params := P 2000000 88812 1405000 true 100.
